@@ -141,6 +141,12 @@ def make_history(seed, i, max_ops=4):
         o = {"convert_unicode": w["options"]["convert_unicode"],
              "max_literals": rng.choice([0, 2, 10, 15]), "post_init_converters": rng.random() < 0.3,
              "meta": rng.random() < 0.3, "preamble": rng.choice([None, None, "# p"])}
+        if rng.random() < 0.25:
+            # explicitly passed per-call style overrides (they must not outlive the call)
+            o["types_style"] = rng.choice([{"StringLiteral": {"use_literals": False}},
+                                           {"StringLiteral": {"use_literals": True}},
+                                           {"StringSerializable": {"use_actual_type": False}},
+                                           {"StringSerializable": {"use_actual_type": True}}])
         op = {"op": "RENDER", "slot": s, "framework": rng.choice(ALL_FRAMEWORKS), "structure": rng.choice(["flat", "nested"]),
               "options": o}
         if crash:
